@@ -49,7 +49,7 @@ func FuzzVerifC16_Bytes(f *testing.F) {
 		f.Add([]byte(s), false, uint16(0))
 		f.Add([]byte(s), true, uint16(7))
 	}
-	keyRe := regexp.MustCompile(`(?i)x-api-key:[ \t]*secret[ \t]*(\r?\n|$)`)
+	keyRe := regexp.MustCompile(`(?i)x-api-key:[ \t]*secret[ \t]*(\r?\n|\r?$)`)
 	f.Fuzz(func(t *testing.T, b []byte, withKey bool, split uint16) {
 		if len(b) > 100000 {
 			return
